@@ -9,7 +9,7 @@ import Cel.Gen.Measured
 import Cel.Props.C04
 namespace Cel.Bridge.Total
 open Cel.Total Cel.Props.C04
-open Cel.Gen.Handlers (mro handlers runCCaught parseCaught larkRaised classNames nClasses)
+open Cel.Gen.Handlers (mro handlers runCCaught parseCaught larkRaised classNames nClasses handlerOps)
 open Cel.Gen.Measured (table)
 
 /-- the class-id convention of the model holds in the regenerated class table -/
@@ -49,6 +49,26 @@ theorem runC_catches_recursion : caught mro runCCaught Cel.Gen.Handlers.idRecurs
     introspected on every run) derives from a class named by the `except` clauses of `CELParser.parse`,
     each of which re-raises `CELParseError`. -/
 theorem parse_errors_wrapped : ∀ c ∈ larkRaised, caught mro parseCaught c = true := by decide
+
+/-- Operations an `except` body may apply without being able to raise (trusted, one line of justification each):
+    constructing the library's errors (`__init__` stores its arguments), `with_traceback`, `sys.exc_info`, `type`,
+    `isinstance`, `str(ex)` of a caught builtin exception, the logging calls (logging swallows formatting errors),
+    f-string conversion of operand values (`repr` of CEL values is total), `*ex.args`, `ex.args[1:]` (a slice),
+    `ex.args[0]` (guarded by the whole-run check `args0:<site>`: no class measured at the site is raised without
+    arguments), lark's own `get_context`, and the first line of lark's message in the `LexError`/`ParseError` clause. -/
+def pureOps : List String :=
+  ["call:CELEvalError", "call:CELEvalError().with_traceback", "call:CELParseError", "call:sys.exc_info", "call:type",
+   "call:isinstance", "call:str(ex)", "call:logger.debug", "call:logger.error", "call:self.logger.debug",
+   "call:self.logger.error", "call:self.logger.info", "call:self.logger.warning", "call:logger.info", "call:logger.warning",
+   "call:cast", "fmt", "star:ex.args", "sub:ex.args[1:]", "sub:ex.args[0]", "call:ex.get_context",
+   "call:ex.args[0].splitlines", "sub:ex.args[0].splitlines()[0]"]
+
+/-- **handler_bodies_pure** — the skeleton's `catchWith` turns a caught exception into an error value; that is only
+    right if the body of the `except` clause cannot raise itself. Every operation found in the body of every `except`
+    clause of `Evaluator`'s rule methods, `Evaluator.evaluate`'s callers (`InterpretedRunner`, `CompiledRunner`, `Runner`,
+    `Environment`), `Transpiler.evaluate`, `result`, `eval_error` and `CELParser.parse` (regenerated from the source:
+    `Cel.Gen.Handlers.handlerOps`) is one of `pureOps`. -/
+theorem handler_bodies_pure : ∀ p ∈ handlerOps, pureOps.contains p.2 = true := by decide
 
 section
 variable {V N : Type} (P : Prims V N) (key : Rule → String → List V → List String) (keyT : Rule → V → List String)
